@@ -1,6 +1,7 @@
 SPECIFICATION Spec
 CONSTANTS
   Anns = {"both"}
+  Devs = {"all"}
   Sizes = {0, 1, 2, 3, 4}
   MaxFaults = 1
   FaultKinds = {"Flip", "Drop", "Dup", "Swap", "Cut"}
